@@ -210,8 +210,12 @@ def main():
         "wall_s": round(time.time() - R.t0, 2),
         "violations": len(R.violations) + (1 if (R.disagreements or not proof["ok"] or crashed) else 0),
     }
-    os.makedirs(os.path.join(VERIF, "evidence"), exist_ok=True)
-    with open(os.path.join(VERIF, "evidence", f"{pid}.json"), "w") as f:
+    # debugging runs without the proof step (and runs against another tree) never overwrite the evidence
+    evdir = os.path.join(VERIF, "evidence")
+    if a.no_proof or os.environ.get("VERIF_REPO"):
+        evdir = os.path.join(VERIF, "evidence", ".scratch")
+    os.makedirs(evdir, exist_ok=True)
+    with open(os.path.join(evdir, f"{pid}.json"), "w") as f:
         json.dump(ev, f, indent=1, default=common._jd, sort_keys=True)
     for ln in lines:
         print(ln)
